@@ -51,7 +51,11 @@ def dump(typ, val, tb, include_local_traceback, include_local_version):
         return typ
 
     if include_local_traceback:
-        tbtext = "".join(traceback.format_exception(typ, val, tb))
+        try:
+            tbtext = "".join(traceback.format_exception(typ, val, tb))
+        except Exception:
+            # e.g. a SyntaxError carrying ill-typed details makes the formatter itself raise
+            tbtext = "<traceback unavailable: %s: %s>" % sys.exc_info()[:2]
     else:
         tbtext = "<traceback denied>"
     attrs = []
